@@ -541,7 +541,14 @@ pub fn report_panics(o: &mut Outcome, stage: &str, detail: &str) -> usize {
     let ps: Vec<PanicRec> = take_panics();
     let n = ps.len();
     let mut seen: Vec<String> = Vec::new();
+    // a task that awaits the reply of a service thread panics when that thread died
+    // ("receiver.await.unwrap()"): reported only when the death itself was not observed
+    let is_consequence = |p: &PanicRec| p.msg.contains("RecvError") && p.file.ends_with("signature_verification_service.rs");
+    let has_cause = ps.iter().any(|p| !is_consequence(p) && !shared::is_harness_panic(p));
     for p in ps {
+        if has_cause && is_consequence(&p) {
+            continue;
+        }
         let sig = if shared::is_harness_panic(&p) {
             // a task of the harness that awaited a reply of a dead service thread
             if p.msg.contains("RecvError") || p.file.ends_with("signature_verification_service.rs") {
@@ -555,7 +562,7 @@ pub fn report_panics(o: &mut Outcome, stage: &str, detail: &str) -> usize {
             continue;
         }
         seen.push(sig.clone());
-        o.violation(sig, format!("{}:{} on thread '{}': {} [{}]", p.file, p.line, p.thread, p.msg, detail));
+        o.violation(sig, format!("{}:{} on thread '{}': {} [{}]", p.file, p.line, p.thread, p.msg, detail).replace('\n', "\\n"));
     }
     n
 }
